@@ -476,6 +476,9 @@ func runCheck(args []string) int {
 			nObl++
 			all = append(all, evObl{Name: o.Name, Kind: o.Kind, Result: o.V.Result, Solver: o.V.Solver, Secs: round3(o.V.Secs), Lines: o.Upto, Pos: posStr(o)})
 			solverTime[o.V.Solver] += o.V.Secs
+			if os.Getenv("GVC_SLOW") != "" && o.V.Secs > 1.0 {
+				fmt.Printf("SLOW %.1fs %s %s\n", o.V.Secs, o.V.Solver, o.Name)
+			}
 			if o.V.Result == "unsat" {
 				nOK++
 				solverWins[o.V.Solver]++
